@@ -108,6 +108,17 @@ def run(ctx, crate):
             obs.append(Ob("R16.nofail", w.path, "unguarded %s on %s" % (s.path.rsplit("::", 1)[-1], kind or show(recv, {p: "p"})), kind is not None,
                           site=s.where, expected="before the filter only listing / entry-name conversions may fail",
                           found=show(recv, {p: "p"})))
+    import order as O
+    for w in dirwalk.walks(crate):
+        if not w.ok:
+            continue
+        early = []
+        for lp in O.loops_of_body(w.body):
+            if "ReadDir" in lp.self_ty:
+                normal, extra = lp.exits()
+                early += [w.body.blocks[x]["tloc"]["line"] for (x, t) in extra]
+        obs.append(Ob("R16.loops", w.path, "every entry of the directory is considered (the listing loop runs to exhaustion)", not early,
+                      found=("early exit at line(s) %s" % sorted(set(early))) if early else "exhaustion only"))
     vals = list(summaries.values())
     if len(vals) == 3:
         same = all(v == vals[0] for v in vals)
